@@ -117,6 +117,10 @@ def check_comp(ctx, case):
         if r is not None:
             for i, (td, raw) in enumerate(zip(cd["tracks"], r["tracks"])):
                 _compare(ctx, raw, MM.track_events(td, bpm, repeat), "track %d" % i)
+        # writing the same composition object again gives the same file (no state left behind in the music or the writer)
+        again = _write(ctx, MFO.write_Composition, comp, bpm, repeat)
+        if via == "file" and again is not None:
+            ctx.check(again == data, "writer/second-write-differs", lambda: "first %d bytes, second %d bytes" % (len(data), len(again)))
     f = SG.features(cd)
     if repeat:
         f.add("repeat")
